@@ -266,6 +266,29 @@ class App:
         seams.patch(WS, 'cg', self.cgseam)
         self.monitor = seams.SubproblemMonitor(ES, ctx, self.current_M)
         self.monitor.install()
+        self.trials = 0
+        self.trial_bound = None
+        real_banner = ES.print_min_banner
+
+        def banner(realO, modelO, res, modelRes, cgIters, trSize, stepType, willAccept, settings):
+            # observation seam: one call per trial step of the trust-region loop
+            self.trials += 1
+            try:
+                if float(modelO) > 0:
+                    ctx.probe('tr:model_increase')
+                    if willAccept:
+                        ctx.probe('tr:model_increase_accepted')
+                if not np.isfinite(float(realO)):
+                    ctx.probe('tr:nan_trial')
+                ctx.probe('tr:accepted' if willAccept else 'tr:rejected')
+            except Exception:
+                pass
+            if self.trial_bound is not None and self.trials > self.trial_bound:
+                ctx.violate('C01', 'returns/terminates',
+                            'trust-region loop made %d trial steps; its own shrink/grow rules bound them by %d'
+                            % (self.trials, self.trial_bound), sig={'barrier': bool(self.cfg.get('barrier'))})
+            return real_banner(realO, modelO, res, modelRes, cgIters, trSize, stepType, willAccept, settings)
+        seams.patch(ES, 'print_min_banner', banner)
         self.obj = None
         self.scaled = None
         self.make_objective(fresh=False)
@@ -510,6 +533,12 @@ class App:
         self.active = self.obj
         self.monitor.enabled = True
         exc = None
+        # bound on trial steps derived from the radius rules: consecutive rejections shrink the
+        # radius by t1 each, acceptances grow it by at most t2, the loop stops below min_tr_size
+        # (one retry after a preconditioner refresh)
+        R = (np.log(max(st.tr_size / st.min_tr_size, 1.0)) + st.max_trust_iters * np.log(max(st.t2, 1.0))) \
+            / np.log(1.0 / st.t1) + 3
+        self.trials, self.trial_bound = 0, int(2 * (st.max_trust_iters + 1) * (R + 1)) + 10
         try:
             with core.quiet_stdout():
                 if driver == 'nes':
@@ -528,6 +557,7 @@ class App:
         finally:
             self.plan.masks = []
             self.cgseam.force_maxiter = None
+            self.trial_bound = None
         self.have_precond = True
         if exc is not None:
             ctx.violate('C01', 'completes', 'solver raised %r' % exc,
